@@ -7,9 +7,9 @@
 (* out (label, slot), whether it was expanded, skipped (verified label) or the queue was exhausted, the  *)
 (* number of stored rule keys and of labels afterwards; the answer of every specification check.        *)
 EXTENDS Naturals, Sequences, FiniteSets, TLC, Json, IOUtils
-R(ch, pe, ip, wk, tw, sh) == [ch |-> ch, pe |-> pe, ip |-> ip, wk |-> wk, tw |-> tw, sh |-> sh]
-U == [start |-> 0, empty |-> {}, verified |-> {1}, ninit |-> 1, nexp |-> 1, flavour |-> "base", initial |-> (2 :> << <<R(<<1, 0>>, FALSE, TRUE, TRUE, TRUE, <<0, 1>>)>> >>), expand |-> (0 :> << <<R(<<1, 2>>, TRUE, FALSE, TRUE, TRUE, <<0, 0>>)>> >>)] \* @UNIVERSE@
-VARIABLES store, empt, q, rules, keys, marks, tried, expanded, skipped, phase, checks, i
+R(ch, pe, ip, wk, tw, sh, nf) == [ch |-> ch, pe |-> pe, ip |-> ip, wk |-> wk, tw |-> tw, sh |-> sh, nf |-> nf]
+U == [start |-> 0, empty |-> {}, verified |-> {1}, ninf |-> 0, ninit |-> 1, nexp |-> 1, nsym |-> 0, flavour |-> "base", inferral |-> <<>>, symm |-> <<>>, initial |-> (2 :> << <<R(<<1, 0>>, FALSE, TRUE, TRUE, TRUE, <<0, 1>>, TRUE)>> >>), expand |-> (0 :> << <<R(<<1, 2>>, TRUE, FALSE, TRUE, TRUE, <<0, 0>>, TRUE)>> >>)] \* @UNIVERSE@
+VARIABLES store, empt, q, rules, keys, marks, tried, infx, symx, expanded, skipped, phase, checks, i
 INSTANCE Search
 Trace == ndJsonDeserialize(IOEnv.TRACE_FILE)[1]
 Ev == Trace.events
